@@ -149,7 +149,8 @@ def build_goto(h, tier, wd, log):
 def cbmc_cmd(h, tier, gb):
     cmd = ["cbmc", gb, "--function", h["entry"], "--unwind", str(tier_opt(h, tier, "unwind", 2))]
     k = int(defines_for(h, tier).get("VP_MEM_K", 128)) + 1
-    uws = {"memcpy.0": k, "memcpy.1": k, "memmove.0": k, "memmove.1": k, "memmove.2": k, "memmove.3": k, "memset.0": k}
+    big = int(defines_for(h, tier).get("VP_MEM_BIG", 4096)) // 8 + 1
+    uws = {"memcpy.0": k, "memcpy.1": k, "memcpy.2": big, "memmove.0": k, "memmove.1": k, "memmove.2": k, "memmove.3": k, "memset.0": k, "memset.1": big}
     for i in range(10):
         uws["vsnprintf.%d" % i] = 48
         uws["vp_put_unsigned.%d" % i] = 26
@@ -243,6 +244,33 @@ def extract_inputs(trace_path):
     return vals
 
 
+def extract_inputs_json(trace_path, prop):
+    """--json-ui --trace output of an all-properties run: the vp_in64 values on the trace of property `prop`"""
+    try:
+        with open(trace_path, "r", errors="replace") as f:
+            data = json.load(f)
+    except Exception:
+        return []
+    vals = []
+    for item in data:
+        if not isinstance(item, dict) or "result" not in item:
+            continue
+        for r in item["result"]:
+            if r.get("property") != prop:
+                continue
+            for st in r.get("trace", []):
+                if st.get("stepType") == "assignment" and st.get("lhs") == "vp_trace_in" and (st.get("sourceLocation") or {}).get("function") == "vp_in64":
+                    v = st.get("value") or {}
+                    try:
+                        vals.append(int(v.get("data")))
+                    except (TypeError, ValueError):
+                        try:
+                            vals.append(int(v.get("binary"), 2))
+                        except (TypeError, ValueError):
+                            pass
+    return vals
+
+
 def native_build(h, tier, wd, log):
     defs = defines_for(h, tier)
     exe = os.path.join(wd, "replay.bin")
@@ -311,10 +339,17 @@ def native_replay(exe, inputs_path, log, timeout_s=20):
 def confirm_failure(pid, h, tier, gb, wd, fr, idx, log):
     """fr: failed cbmc result record. Returns dict(kind=..., replay=path, confirmed=bool, detail=...)"""
     trace_path = os.path.join(wd, "trace_%d.txt" % idx)
-    cmd = [c for c in cbmc_cmd(h, tier, gb)] + ["--property", fr["property"], "--trace"]
     to = tier_opt(h, tier, "timeout", 600)
-    rc, _, wall, _, timed_out = run(cmd, timeout=to * 2, mem_gb=tier_opt(h, tier, "mem_gb", 16), stdout_path=trace_path)
-    inputs = extract_inputs(trace_path) if os.path.exists(trace_path) else []
+    if is_unwind(fr):
+        # unwinding assertions only come into being during symex: --property does not know them. Ask for the traces
+        # of the whole run (JSON) and pick the one of this property.
+        cmd = [c for c in cbmc_cmd(h, tier, gb)] + ["--trace", "--json-ui"]
+        rc, _, wall, _, timed_out = run(cmd, timeout=to * 2, mem_gb=tier_opt(h, tier, "mem_gb", 16), stdout_path=trace_path)
+        inputs = extract_inputs_json(trace_path, fr["property"]) if os.path.exists(trace_path) else []
+    else:
+        cmd = [c for c in cbmc_cmd(h, tier, gb)] + ["--property", fr["property"], "--trace"]
+        rc, _, wall, _, timed_out = run(cmd, timeout=to * 2, mem_gb=tier_opt(h, tier, "mem_gb", 16), stdout_path=trace_path)
+        inputs = extract_inputs(trace_path) if os.path.exists(trace_path) else []
     os.makedirs(os.path.join(EVID, "replay"), exist_ok=True)
     ipath = os.path.join(EVID, "replay", "%s_%s_%d.in" % (pid, h["name"], idx))
     with open(ipath, "w") as f:
